@@ -108,8 +108,9 @@ def run_mission_impl(case):
                 # process, rewritten for every mission, as a planner that keeps updating "mission.txt" does
                 path = _mission_file()
                 with open(path, "w") as f:
+                    fmt = {"e": "%.17e,%.17e,%.17e\n", "sp": " %r , %r ,%r \n", "plus": "%+.17g,%+.17g,%+.17g\n"}.get(case.get("file_fmt"), "%r,%r,%r\n")
                     for q in op[1]:
-                        f.write("%r,%r,%r\n" % (float(q[0]), float(q[1]), float(q[2])))
+                        f.write(fmt % (float(q[0]), float(q[1]), float(q[2])))
                 plugin.start_mission_with_waypoint_file(path)
             elif op[0] == "start":
                 plugin.start_mission([tuple(p) for p in op[1]])
@@ -189,6 +190,24 @@ def run_disp_impl(case):
 
             def finish(self):
                 log.append("proto %d finish" % i)
+        if case.get("shape") == "decorated":
+            # callbacks wrapped by a hand-written decorator (no functools.wraps): the function objects are all called "wrapper"
+            def traced(f):
+                def wrapper(self, *a):
+                    return f(self, *a)
+                return wrapper
+            for nm in ("initialize", "handle_timer", "handle_telemetry", "handle_packet", "finish"):
+                setattr(P, nm, traced(getattr(P, nm)))
+        elif case.get("shape") == "aliased":
+            # callbacks defined under another name and bound to the callback names in the class body
+            def _any_timer(self, timer):
+                log.append("proto %d timer" % i)
+
+            def _any_telem(self, telemetry):
+                log.append("proto %d telem" % i)
+            P.handle_timer = _any_timer
+            P.handle_telemetry = _any_telem
+            P.finish = lambda self: log.append("proto %d finish" % i)
         if case.get("via") == "simulator":
             return P
         p = P()
